@@ -18,13 +18,13 @@ def Plain (t : Token) : Prop := (∀ s, t ≠ .string s) ∧ (∀ s, t ≠ .iden
 /-- what one lexer step guarantees about the token `t` it produced from `cs`, consuming `n` characters -/
 structure OneFact (cs : List Char) (t : Token) (n : Nat) : Prop where
   str : ∀ s, t = .string s → blen s < 65535
-  lab : ∀ s, t = .ident (.label s) → s.length = n ∧ n ≤ cs.length
+  lab : ∀ s, t = .ident (.label s) → s = cs.take n ∧ n ≤ cs.length
   nl : t = .newline → (∃ r, cs = '\n' :: r ∧ n = 1) ∨ (∃ r, cs = '\r' :: '\n' :: r ∧ n = 2)
 
 theorem OneFact.plain {cs : List Char} {t : Token} {n : Nat} (h : Plain t) : OneFact cs t n :=
   ⟨fun s hs => absurd hs (h.1 s), fun s hs => absurd hs (h.2.1 s), fun hs => absurd hs h.2.2⟩
 
-theorem OneFact.ident {cs : List Char} (x : List Char) (n : Nat) (hn : x.length = n) (hle : n ≤ cs.length) :
+theorem OneFact.ident {cs : List Char} (x : List Char) (n : Nat) (hn : x = cs.take n) (hle : n ≤ cs.length) :
     OneFact cs (.ident (Ident.ofText x)) n := by
   refine ⟨fun s hs => (by cases hs), fun s hs => ?_, fun hs => (by cases hs)⟩
   injection hs with hs
@@ -67,6 +67,18 @@ theorem takeWhile_len {α : Type} (p : α → Bool) : ∀ l : List α, (l.takeWh
     split
     · simp only [List.length_cons]; have := takeWhile_len p xs; omega
     · simp
+
+theorem take_takeWhile {α : Type} (p : α → Bool) : ∀ l : List α, l.take (l.takeWhile p).length = l.takeWhile p
+  | [] => rfl
+  | x :: xs => by
+    rw [List.takeWhile_cons]
+    split
+    · simp only [List.length_cons, List.take_succ_cons]; rw [take_takeWhile p xs]
+    · simp
+
+theorem spanW_take (c : Char) (rest : List Char) : c :: (spanW rest).1 = (c :: rest).take (1 + (spanW rest).1.length) := by
+  unfold spanW
+  rw [Nat.add_comm, List.take_succ_cons, take_takeWhile]
 
 theorem spanW_len (rest : List Char) : (spanW rest).1.length ≤ rest.length := by
   unfold spanW; exact takeWhile_len _ _
@@ -139,7 +151,7 @@ theorem lexOne_facts (cs : List Char) (t : Token) (n : Nat) (h : lexOne cs = ⟨
         · injection h with hres hn
           injection hres with hres
           subst hres
-          exact .ident _ _ (by rw [← hn]; simp only [List.length_cons]; omega)
+          exact .ident _ _ (by rw [← hn]; exact spanW_take c (d :: r))
             (by rw [← hn]; simp only [List.length_cons] at hlen' ⊢; omega)
       · injection h with hres hn
         injection hres with hres
@@ -155,7 +167,7 @@ theorem lexOne_facts (cs : List Char) (t : Token) (n : Nat) (h : lexOne cs = ⟨
       · injection h with hres hn
         injection hres with hres
         subst hres
-        exact .ident _ _ (by rw [← hn]; simp only [List.length_cons]; omega)
+        exact .ident _ _ (by rw [← hn]; exact spanW_take c rest)
           (by rw [← hn]; simp only [List.length_cons]; omega)
     rw [if_neg h12] at h
     by_cases h13 : isAsciiAlpha c = true ∨ c = '_'
@@ -163,7 +175,7 @@ theorem lexOne_facts (cs : List Char) (t : Token) (n : Nat) (h : lexOne cs = ⟨
       injection h with hres hn
       injection hres with hres
       subst hres
-      exact .ident _ _ (by rw [← hn]; simp only [List.length_cons]; omega)
+      exact .ident _ _ (by rw [← hn]; exact spanW_take c rest)
         (by rw [← hn]; simp only [List.length_cons]; omega)
     rw [if_neg h13] at h
     cases h
@@ -175,7 +187,8 @@ structure TokFact (src : List Char) (t : SpTok) : Prop where
   lo : t.start ≤ t.stop
   hi : t.stop ≤ blen src
   str : ∀ s, t.tok = .string s → blen s < 65535
-  lab : ∀ s, t.tok = .ident (.label s) → s.length ≤ t.stop - t.start
+  lab : ∀ s, t.tok = .ident (.label s) → s.length ≤ t.stop - t.start ∧
+    ∃ pre post, src = pre ++ s ++ post ∧ blen pre = t.start ∧ t.stop = t.start + blen s
   nl : t.tok = .newline → t.start < t.stop ∧ (t.stop - 1) ∈ nlFrom 0 src
 
 theorem length_le_blen : ∀ l : List Char, l.length ≤ blen l
@@ -230,8 +243,9 @@ theorem lexAll_facts (src : List Char) : ∀ (fuel : Nat) (cs : List Char) (off 
             · refine ⟨⟨by dsimp only; omega, by dsimp only; omega, fun s hs => hf.str s hs, fun s hs => ?_, fun hs => ?_⟩, Nat.le_refl _⟩
               · obtain ⟨hl1, hl2⟩ := hf.lab s hs
                 have := length_le_blen ((c :: cs).take (lexOne (c :: cs)).len)
-                rw [List.length_take, Nat.min_eq_left hl2] at this
-                dsimp only; omega
+                rw [← hl1] at this
+                refine ⟨by dsimp only; rw [← hl1]; omega, pre, (c :: cs).drop (lexOne (c :: cs)).len, ?_, hoff.symm, by dsimp only; rw [← hl1]⟩
+                rw [hl1, List.append_assoc, List.take_append_drop]; exact hsrc
               · rcases hf.nl hs with ⟨r, hr, hn⟩ | ⟨r, hr, hn⟩
                 · rw [hn, hr]
                   have h1 : blen (List.take 1 ('\n' :: r)) = 1 := by simp [blen]; decide
